@@ -1029,6 +1029,305 @@ def history_task(ctx, task):
             ctx.distinct('nontrivial', ('history', system['D'], repr(h)))
 
 
+# ---- small models for the families over names ---------------------------------------------------------------
+
+def build_mini_model(spec):
+    '''
+    ooaofooa metamodel, populated through the API, for
+    spec = dict(functions=[(name, params, rtype, stmts)], classes=[(key letters, attrs, ops)], ees=[(key letters, bridges)],
+                enums=[(name, [enumerators])], constants=[(name, type, text, value)])
+    with attrs = [(name, type, None | (statements of the derived body, statements of the reference))],
+    ops = [(name, instance based, params, rtype, stmts)], bridges = [(name, params, rtype, stmts)], params = [(name, type)].
+    '''
+    from xtuml import relate, where_eq as where
+    m = base_loader().build_metamodel()
+    dt = lambda name: m.select_any('S_DT', where(Name=name))
+    pkg = m.new('EP_PKG', Name='P')
+    relate(m.new('PE_PE'), pkg, 8001)
+
+    def pe(inst):
+        p = m.new('PE_PE')
+        relate(p, inst, 8001)
+        relate(p, pkg, 8000)
+        return inst
+
+    def chain(items, rel):
+        prev = None
+        for it in items:
+            if prev is not None:
+                relate(it, prev, rel, 'succeeds')
+            prev = it
+    for numb, (kl, attrs, ops) in enumerate(spec.get('classes', ()), 1):
+        o_obj = pe(m.new('O_OBJ', Name=kl, Key_Lett=kl, Numb=numb))
+        made = {}
+        for name, ty, derived in attrs:
+            o_attr = m.new('O_ATTR', Name=name, Root_Nam=name)
+            relate(o_attr, o_obj, 102)
+            relate(o_attr, dt(ty), 114)
+            o_battr = m.new('O_BATTR')
+            relate(o_battr, o_attr, 106)
+            if derived is None:
+                relate(m.new('O_NBATTR'), o_battr, 107)
+            else:
+                relate(m.new('O_DBATTR', Action_Semantics_internal=body_text(derived[0]), Suc_Pars=1), o_battr, 107)
+            made[name] = o_attr
+        chain([made[a[0]] for a in attrs], 103)
+        o_id = m.new('O_ID', Oid_ID=0)
+        relate(o_id, o_obj, 104)
+        o_oida = m.new('O_OIDA', localAttributeName=attrs[0][0])
+        relate(o_oida, o_id, 105)
+        relate(o_oida, made[attrs[0][0]], 105)
+        tfrs = []
+        for name, inst_based, params, rty, stmts in ops:
+            o_tfr = m.new('O_TFR', Name=name, Instance_Based=inst_based, Suc_Pars=1, Action_Semantics_internal=body_text(stmts))
+            relate(o_tfr, o_obj, 115)
+            relate(o_tfr, dt(rty), 116)
+            tfrs.append(o_tfr)
+            ps = []
+            for pname, pty in params:
+                o_tparm = m.new('O_TPARM', Name=pname)
+                relate(o_tparm, o_tfr, 117)
+                relate(o_tparm, dt(pty), 118)
+                ps.append(o_tparm)
+            chain(ps, 124)
+        chain(tfrs, 125)
+    for name, params, rty, stmts in spec.get('functions', ()):
+        s_sync = pe(m.new('S_SYNC', Name=name, Suc_Pars=1, Action_Semantics_internal=body_text(stmts)))
+        relate(s_sync, dt(rty), 25)
+        ps = []
+        for pname, pty in params:
+            s_sparm = m.new('S_SPARM', Name=pname)
+            relate(s_sparm, s_sync, 24)
+            relate(s_sparm, dt(pty), 26)
+            ps.append(s_sparm)
+        chain(ps, 54)
+    for kl, bridges in spec.get('ees', ()):
+        s_ee = pe(m.new('S_EE', Name=kl, Key_Lett=kl))
+        for name, params, rty, stmts in bridges:
+            s_brg = m.new('S_BRG', Name=name, Suc_Pars=1, Action_Semantics_internal=body_text(stmts))
+            relate(s_brg, s_ee, 19)
+            relate(s_brg, dt(rty), 20)
+            ps = []
+            for pname, pty in params:
+                s_bparm = m.new('S_BPARM', Name=pname)
+                relate(s_bparm, s_brg, 21)
+                relate(s_bparm, dt(pty), 22)
+                ps.append(s_bparm)
+            chain(ps, 55)
+    for name, enumerators in spec.get('enums', ()):
+        s_dt = pe(m.new('S_DT', Name=name))
+        s_edt = m.new('S_EDT')
+        relate(s_edt, s_dt, 17)
+        es = []
+        for en in enumerators:
+            s_enum = m.new('S_ENUM', Name=en)
+            relate(s_enum, s_edt, 27)
+            es.append(s_enum)
+        chain(es, 56)
+    if spec.get('constants'):
+        csp = pe(m.new('CNST_CSP', InformalGroupName='K'))
+        cs = []
+        for name, ty, text, _ in spec['constants']:
+            syc = m.new('CNST_SYC', Name=name)
+            relate(syc, csp, 1504)
+            relate(syc, dt(ty), 1500)
+            lfsc = m.new('CNST_LFSC')
+            relate(lfsc, syc, 1502)
+            relate(m.new('CNST_LSC', Value=text), lfsc, 1503)
+            cs.append(syc)
+        chain(cs, 1505)
+    return m
+
+
+def mini_schema(spec):
+    classes = [(kl, [(n, t) for n, t, d in attrs if d is None]) for kl, attrs, _ in spec.get('classes', ())]
+    return relmodel.Schema('c15mini', classes, [], [(kl, 'I1', [attrs[0][0]]) for kl, attrs, _ in spec.get('classes', ())])
+
+
+def mini_reference(spec):
+    '''Keyword arguments of the reference evaluator for a spec of build_mini_model.'''
+    functions = dict((name, E.Callable(name, params, stmts)) for name, params, _, stmts in spec.get('functions', ()))
+    operations, derived, bridges = {}, {}, {}
+    for kl, attrs, ops in spec.get('classes', ()):
+        for name, inst_based, params, _, stmts in ops:
+            operations[(kl.upper(), name)] = E.Callable(name, params, stmts, owner=kl, kind='operation' if inst_based else 'class_operation')
+        for name, _, d in attrs:
+            if d is not None:
+                derived[(kl.upper(), name)] = E.Callable(name, [], d[1], kind='derived', owner=kl)
+    for kl, bs in spec.get('ees', ()):
+        for name, params, _, stmts in bs:
+            bridges[(kl, name)] = E.Callable(name, params, stmts, kind='bridge')
+    return dict(functions=functions, operations=operations, bridges=bridges, derived=derived,
+                enums=dict((n, list(es)) for n, es in spec.get('enums', ())),
+                constants=dict((name, value) for name, _, _, value in spec.get('constants', ())))
+
+
+# ---- parameter names: a modeled parameter may be spelled like any name the library uses itself -----------------
+# For every name of the alphabet one model: function pf(<name>: integer, q: integer) (recursive, the invocation of itself
+# names both parameters), bridge PEE::pb(<name>: string, q: string), class-based operation PK::pc(<name>: boolean, q: integer),
+# instance-based operation PK.pi(<name>: integer, q: integer) and a function main invoking all four from OAL.
+
+# OAL keywords that may be used where an identifier is expected behind `param.` (rule kw_as_identifier_1 of the grammar)
+OAL_KW_AS_PARAMETER = set('''ACROSS ANY ASSIGN ASSIGNER BREAK BY CLASS CONTINUE CONTROL CREATE CREATOR DELETE EACH EVENT FOR FROM
+GENERATE IN INSTANCES INSTANCE MANY OBJECT ONE RELATED RELATE SELECT STOP TO WHERE UNRELATE USING'''.split())
+PYTHON_CONVENTIONAL = ['self', 'cls', 'args', 'kwargs', 'kwds', 'kw', 'mcs', 'klass', 'other', 'result', 'return_value']
+PN_ENTRIES = ['py:function', 'py:function, keywords the other way round', 'py:bridge', 'py:class operation', 'py:instance operation', 'oal']
+# (name, entry) pairs the unmodified library gets wrong; kept out of the run, see the report of round 11
+PN_KNOWN = {}
+
+
+def admissible_parameter_name(name):
+    '''May be written `param.<name>` and `<name>: <expression>` in OAL.'''
+    if not name or not (name[0].isalpha() or name[0] == '_') or not all(c.isalnum() or c == '_' for c in name) or not name.isascii():
+        return False
+    return name.upper() not in A.KEYWORDS or name.upper() in OAL_KW_AS_PARAMETER
+
+
+def library_names():
+    '''(parameter and local variable names, other names) of every code object of bridgepoint.interpret and bridgepoint.ooaofooa
+    of the tree under test.'''
+    import types
+    from bridgepoint import interpret, ooaofooa
+    variables, others = set(), set()
+
+    def walk(code):
+        variables.update(code.co_varnames)
+        variables.update(code.co_cellvars)
+        variables.update(code.co_freevars)
+        others.update(code.co_names)
+        for c in code.co_consts:
+            if isinstance(c, types.CodeType):
+                walk(c)
+    for mod in (interpret, ooaofooa):
+        with open(mod.__file__.replace('.pyc', '.py')) as f:
+            walk(compile(f.read(), mod.__file__, 'exec'))
+    return variables, others - variables
+
+
+_PN_NAMES = {}
+
+
+def parameter_names(tier):
+    '''The alphabet of parameter names: [(name, where it comes from)], sorted.'''
+    if tier not in _PN_NAMES:
+        import keyword
+        variables, others = library_names()
+        src = {}
+        for n in sorted(others):
+            src[n] = 'name used by the library'
+        for n in ['pf', 'pb', 'pc', 'pi', 'main', 'PK', 'PEE', 'W', 'Id', 'q', 'p', 'x']:
+            src[n] = 'name of the model'
+        for n in PYTHON_CONVENTIONAL:
+            src[n] = 'conventional python name'
+        for n in keyword.kwlist + list(getattr(keyword, 'softkwlist', [])):
+            src[n] = 'python keyword'
+        for n in sorted(variables):
+            src[n] = 'parameter or variable of a library function'
+        if tier != 'thorough':
+            # quick: the names the library uses other than as parameters / variables are left to the thorough tier,
+            # apart from those spelled like attributes of the walkers and of the symbol table
+            keep = ('kwargs', 'instance', 'return_value', 'symtab', 'domain', 'attribute_name', 'symbols', 'accept', 'find_symbol')
+            src = dict((n, s) for n, s in src.items() if s != 'name used by the library' or n in keep)
+        _PN_NAMES[tier] = sorted((n, s) for n, s in src.items() if admissible_parameter_name(n))
+    return _PN_NAMES[tier]
+
+
+def pn_spec(nm):
+    q = 'q' if nm != 'q' else 'w'
+    pf = [IF(B('<=', P(q), I(0)), [RET(P(nm))]),
+          RET(('fcall', 'pf', [(nm, B('+', P(nm), P(q))), (q, B('-', P(q), I(1)))]))]
+    pb = [RET(B('+', P(nm), P(q)))]
+    pc = [IF(P(nm), [RET(P(q))]), RET(B('-', I(0), P(q)))]
+    pi = [RET(B('+', B('+', B('*', SF('W'), I(100)), B('*', P(nm), I(10))), P(q)))]
+    main = [('selfrom', 'any', 'k_', 'PK', None, True),
+            ASG(V('x_'), ('fcall', 'pf', [(nm, I(2)), (q, I(2))])),
+            ASG(V('s_'), ('ncall', 'PEE', 'pb', [(q, ('str', 'b')), (nm, ('str', 'a'))])),
+            ASG(V('y_'), ('ncall', 'PK', 'pc', [(nm, ('bool', 'true')), (q, I(4))])),
+            ASG(V('z_'), ('icall', V('k_'), 'pi', [(nm, I(3)), (q, I(1))])),
+            IF(B('!=', V('s_'), ('str', 'ab')), [RET(B('-', I(0), I(1)))]),
+            RET(B('+', B('+', B('*', V('x_'), I(100000)), B('*', V('y_'), I(10000))), V('z_')))]
+    spec = dict(functions=[('pf', [(nm, 'integer'), (q, 'integer')], 'integer', pf), ('main', [], 'integer', main)],
+                classes=[('PK', [('Id', 'unique_id', None), ('W', 'integer', None)],
+                          [('pc', False, [(nm, 'boolean'), (q, 'integer')], 'integer', pc),
+                           ('pi', True, [(nm, 'integer'), (q, 'integer')], 'integer', pi)])],
+                ees=[('PEE', [('pb', [(nm, 'string'), (q, 'string')], 'string', pb)])])
+    return spec, q
+
+
+def pn_run(nm, entry, real, bp=None):
+    '''The value of one entry for the parameter name nm: through the library (real; on a new component of the BridgePoint
+    model bp) or through the reference.'''
+    spec, q = pn_spec(nm)
+    args = {'py:function': [(nm, 3), (q, 2)], 'py:function, keywords the other way round': [(q, 2), (nm, 3)],
+            'py:bridge': [(nm, 'a'), (q, 'b')], 'py:class operation': [(q, 4), (nm, False)],
+            'py:instance operation': [(nm, 3), (q, 1)], 'oal': []}[entry]
+    kw = dict(args)        # keeps the order of the keywords
+    if not real:
+        ref = relmodel.Ref(mini_schema(spec))
+        k = E.Handle('PK', ref.new('PK', dict(W=7)))
+        ev = E.Evaluator(ref, fuel=500, max_depth=14, **mini_reference(spec))
+        if entry.startswith('py:function'):
+            return ev.run(ev.functions['pf'].body, kw)
+        if entry == 'py:bridge':
+            return ev.run(ev.bridges[('PEE', 'pb')].body, kw)
+        if entry == 'py:class operation':
+            return ev.run(ev.operations[('PK', 'pc')].body, kw)
+        if entry == 'py:instance operation':
+            return ev.run(ev.operations[('PK', 'pi')].body, kw, k)
+        return ev.run(ev.functions['main'].body, {})
+    from bridgepoint import ooaofooa
+    dom = ooaofooa.mk_component(bp if bp is not None else build_mini_model(spec))
+    k = dom.new('PK', W=7)
+    with core.time_limit(10.0):
+        if entry.startswith('py:function'):
+            return dom.find_symbol('pf')(**kw)
+        if entry == 'py:bridge':
+            return dom.find_symbol('PEE').pb(**kw)
+        if entry == 'py:class operation':
+            return dom.find_class('PK').pc(**kw)
+        if entry == 'py:instance operation':
+            return k.pi(**kw)
+        return dom.find_symbol('main')()
+
+
+def compare_parameter_name(ctx, nm, entry, bp=None):
+    case = dict(family='paramname', name=nm, entry=entry)
+    what = 'paramname:%s' % entry.split(',')[0].replace('py:', '').replace(' ', '-')
+    exp = pn_run(nm, entry, False)
+    ctx.count('calls')
+    ctx.count('paramname_calls')
+    try:
+        got = pn_run(nm, entry, True, bp)
+    except core.Timeout:
+        ctx.violation('c15:%s:hang' % what, case, '%s with a parameter named %r does not return within 10 s' % (entry, nm), None, 'timeout')
+        return 'bad'
+    except Exception as e:
+        ctx.violation('c15:%s:crash:%s' % (what, type(e).__name__), case,
+                      '%s of a callable whose modeled parameter is named %r raised %s: %s; expected %r'
+                      % (entry, nm, type(e).__name__, e, exp), norm(exp), type(e).__name__)
+        return 'bad'
+    if norm(got) != norm(exp):
+        ctx.violation('c15:%s:value' % what, case, '%s of a callable whose modeled parameter is named %r returned %r, expected %r'
+                      % (entry, nm, got, exp), norm(exp), norm(got))
+        return 'bad'
+    ctx.count('traces')
+    ctx.distinct('outcomes', ('paramname', entry, repr(norm(exp))))
+    ctx.distinct('nontrivial', ('paramname', nm, entry))
+    return 'ok'
+
+
+def paramname_task(ctx, task):
+    tier, names = task
+    for nm in names:
+        ctx.count('parameter_names')
+        bp = build_mini_model(pn_spec(nm)[0])
+        for entry in PN_ENTRIES:
+            if entry in PN_KNOWN.get(nm, ()):
+                ctx.count('paramname_known_defect_skipped')
+                continue
+            compare_parameter_name(ctx, nm, entry, bp)
+
+
 # ---- row order ----------------------------------------------------------------------
 
 PERM_TABLES = ['S_ENUM', 'S_SPARM', 'O_TPARM', 'CNST_SYC', 'CNST_LSC', 'S_SYNC', 'O_TFR', 'O_ATTR']
